@@ -1,9 +1,14 @@
 #!/bin/bash
 # try_seed.sh <seed-id-dir> <check-id> [tier]  : apply seeded patch to /repo (sources only), run check, undo.
+# The evidence file of the check is put back afterwards (evidence must describe the unchanged tree).
 S=/verif/seeded/$1; CHK=$2; TIER=${3:-quick}
 cd /repo || exit 2
-P="$S/patch.diff"; [ -f "$S/patch_current.diff" ] && P="$S/patch_current.diff"; git -C /repo apply --whitespace=nowarn --exclude=qtlogger.h "$P" || { echo "patch does not apply"; exit 2; }
-cd /verif; ./check $CHK $TIER > /tmp/try_$1_$CHK.out 2>&1; RC=$?
-git -C /repo checkout -- . 
+P="$S/patch.diff"; [ -f "$S/patch_current.diff" ] && P="$S/patch_current.diff"
+git -C /repo apply --whitespace=nowarn --exclude=qtlogger.h "$P" || { echo "patch does not apply"; exit 2; }
+cd /verif
+cp evidence/$CHK.json /tmp/evidence_$CHK.bak 2>/dev/null
+VERIF_REPLAYS=/tmp/replays_seed ./check $CHK $TIER > /tmp/try_$1_$CHK.out 2>&1; RC=$?
+git -C /repo checkout -- .
+[ -f /tmp/evidence_$CHK.bak ] && cp /tmp/evidence_$CHK.bak evidence/$CHK.json
 echo "seed=$1 check=$CHK tier=$TIER rc=$RC violations=$(grep -c '^VIOLATION' /tmp/try_$1_$CHK.out)"; grep -m2 -E "VIOLATION|TOOL-FAILURE" /tmp/try_$1_$CHK.out
 exit 0
